@@ -157,6 +157,21 @@ def r5_conflicting_lengths(ctx, R5):
     for r in rows:
         multi = None
         for k_, v_ in r.st.ts.items():
+            if isinstance(k_, tuple) and len(k_) == 4 and k_[0] == "cmp" and destruct(k_[1])[0] == "len" and str(k_[3]).lstrip("-").isdigit() and (k_[2], k_[3]) not in ((">", "1"), ("==", "1"), ("!=", "1")) \
+                    and k_[2] in (">", ">=", "<", "<=", "==", "!=") and CL in k_[1]:
+                # the number of distinct values is compared with another bound: decide it on sizes 1, 2, 3
+                import operator as _op
+                f_ = {">": _op.gt, ">=": _op.ge, "<": _op.lt, "<=": _op.le, "==": _op.eq, "!=": _op.ne}[k_[2]]
+                sizes = {n_ for n_ in (1, 2, 3) if f_(n_, int(k_[3])) == v_}
+                if sizes and all(n_ > 1 for n_ in sizes):
+                    multi = True
+                elif sizes == {1}:
+                    multi = False
+                else:
+                    ctx.ob(R5, il.qual, f"the distinctness test `len(values) {k_[2]} {k_[3]}` separates one value from several", False,
+                           f"on this row {sorted(sizes)} distinct values are possible: conflicting lengths can be accepted (or a single one refused)", witness=r.witness(), node=il.node)
+                    multi = None
+                    n_multi += 1
             if isinstance(k_, tuple) and len(k_) == 4 and k_[0] == "cmp" and k_[2] == ">" and k_[3] == "1" and destruct(k_[1])[0] == "len":
                 multi = v_
                 inner = destruct(k_[1])[1][0]
